@@ -183,6 +183,12 @@ def run_case(p, drv):
     rfm_mod.RFM.fit = rec_fit
     try:
         model = build_model(p)
+        if p.get('refit_first'):
+            # object history: the same estimator was fitted before on other data with other class frequencies
+            q0 = dict(p, dseed=p['dseed'] + 7919, profile=p['refit_first'])
+            X0, y0, Xv0, yv0 = make_data(q0)[:4]
+            model.fit(X0, y0, Xv0, yv0)
+            leaf_val_classes.clear()
         model.fit(Xtr, ytr, Xva, yva)
     except Exception as e:
         import traceback
@@ -398,7 +404,8 @@ def gen_cases(run):
                           n_train=n_train, n_val=n_val, d=r.randint(2, 6), max_leaf_size=L, sep=sep,
                           kernel=r.choice(['l2', 'l2', 'l2_high_dim', 'l1']), bandwidth=r.choice([1.0, 3.0, 10.0]),
                           exponent=r.choice([1.0, 1.0, 1.2]), diag=r.random() < 0.25, iters=r.randint(0, 2),
-                          return_best=r.random() < 0.7, dseed=r.randint(0, 10 ** 6), mseed=r.randint(0, 10 ** 6)))
+                          return_best=r.random() < 0.7, dseed=r.randint(0, 10 ** 6), mseed=r.randint(0, 10 ** 6),
+                          refit_first=(r.choice([q for q in PROFILES if q != profile]) if (i % 6 == 5 and metric != 'auc') else None)))
     return cases
 
 
